@@ -6,7 +6,7 @@ from .. import core, femcommon as fc, gen_mesh as gm
 ID = "C06"
 LIMIT = 30.0
 RULE = ("triangle meshes (flat and curved, oriented or not, flips/rotations/relabelling, scales 1e-5..1e3, float32) and tet meshes "
-        "(oriented by orient_, unoriented, mixed) x vertex functions (random, affine; dtypes float64/float32/int64/uint8) x element "
+        "(oriented by orient_, unoriented, mixed) plus strips of flat cap triangles (height 1e-4 / 1e-5 of the base) x vertex functions (random, affine; dtypes float64/float32/int64/uint8) x element "
         "vector fields (random, tangential). distinct = hash of the case; non-trivial = >= 2 elements and non-constant f")
 TRUSTED = ["scipy csc_matrix((dat,(i,j))).todense() as scatter-add of length max index + 1 (modelled)"]
 ASSUMPTIONS = ["integer vertex functions are passed to the model as their float values"]
@@ -23,18 +23,31 @@ COQ_LABELS = ["gradient", "divergence", "divergence2"]
 def generate(rng, tier):
     nt, nq = (70, 40) if tier == "quick" else (600, 300)
     cases = fc.fem_mesh_cases(rng, tier, nt, nq)
+    # strips of flat "cap" triangles (base w, height h << w): valid elements whose area must not come from a side-length formula
+    for _ in range(4 if tier == "quick" else 30):
+        N = rng.randint(2, 6)
+        h, w = rng.choice([1e-4, 1e-5]), rng.choice([0.3, 1.0])
+        v = [[w * k, 0.0, 0.0] for k in range(N + 1)] + [[w * (k + 0.5), h, 0.0] for k in range(N)]
+        t = []
+        for k in range(N):
+            t.append([k, k + 1, N + 1 + k])
+            if k + 1 < N:
+                t.append([N + 1 + k, k + 1, N + 2 + k])
+        if rng.random() < 0.5:
+            v, _, _, _ = gm.similarity(v, rng, scale=1.0)
+        cases.append({"kind": "tria", "family": "cap_strip", "v": v, "t": t, "lump": False, "vdtype": "float64", "tdtype": "int64"})
     out = []
     for c in cases:
         n, T = len(c["v"]), len(c["t"])
         p = np.array(c["v"])
         sc = np.abs(p).max() + 1e-300
-        kind = rng.choice(["rand", "rand", "affine", "affine"])
+        kind = rng.choice(["rand", "rand", "affine", "affine"]) if c["family"] != "cap_strip" else "affine"
         a = [rng.uniform(-2, 2) for _ in range(3)]
         if kind == "affine":
             f = (p @ np.array(a) / sc + 0.7).tolist()
         else:
             f = [rng.uniform(-1, 1) for _ in range(n)]
-        fd = rng.choice(["float64", "float64", "float32", "int64", "uint8"])
+        fd = rng.choice(["float64", "float64", "float32", "int64", "uint8"]) if c["family"] != "cap_strip" else "float64"
         if fd == "int64":
             f = [float(round(20 * x)) for x in f]
         elif fd == "uint8":
@@ -158,6 +171,11 @@ def oracle(case, out):
             bad("tria_gradient_tangent", f"{np.abs((g * n).sum(1)).max()}")
     if not out["g_direct"]:
         bad("dispatch_to_matching_routine", "generic and specific gradient differ")
+    if k == 3:
+        # the cotangent divergence is ill-conditioned on flat "cap" triangles: cot ~ (edge / height), products of two of them
+        e2 = max(float(((p[t[:, i]] - p[t[:, (i + 1) % 3]]) ** 2).sum(1).max()) for i in range(3))
+        cond = e2 / float((2 * meas).min() + 1e-300)
+        rt = max(rt, 4e-16 * cond * cond)
     d = np.array(out["d"])
     nfull = len(p)
     dd = np.zeros(nfull)
@@ -173,7 +191,7 @@ def oracle(case, out):
     dg = np.zeros(nfull)
     dg[: len(out["divgrad"])] = out["divgrad"]
     Af = np.array(out["Af"])
-    if len(Af) == nfull and np.abs(dg + Af).max() > (5e-3 if f32 else 1e-7) * (np.abs(Af).max() + 1e-300):
+    if len(Af) == nfull and np.abs(dg + Af).max() > max(5e-3 if f32 else 1e-7, 10 * rt if k == 3 else 0.0) * (np.abs(Af).max() + 1e-300):
         bad(pre + "div_grad_is_minus_A", f"max |div(grad f) + A f| = {np.abs(dg + Af).max()}")
     if k == 3 and case["tangential"]:
         d2 = np.array(out["d2"])
